@@ -96,13 +96,17 @@ class ExactAlgorithmPulp(RankAggAlgorithm, PairwiseBasedAlgorithm):
                 bucket = {id_elements[elem]}
                 current_nb_def = nb_defeats
         ranking.append(bucket)
+        att = {ConsensusFeature.NECESSARILY_OPTIMAL: True,
+               ConsensusFeature.ASSOCIATED_ALGORITHM: self.get_full_name()}
+        # the solver reports no objective value when the objective is empty (one element, or all costs equal to 0):
+        # the score is then left to be computed on demand by the Consensus object
+        objective_value = prob.objective.value() if prob.objective is not None else None
+        if objective_value is not None:
+            att[ConsensusFeature.KEMENY_SCORE] = objective_value
         return Consensus(consensus_rankings=[Ranking(ranking)],
                          dataset=dataset,
                          scoring_scheme=scoring_scheme,
-                         att={ConsensusFeature.NECESSARILY_OPTIMAL: True,
-                              ConsensusFeature.ASSOCIATED_ALGORITHM: self.get_full_name(),
-                              ConsensusFeature.KEMENY_SCORE: prob.objective.value(),
-                              })
+                         att=att)
 
     @staticmethod
     def _add_pulp_variables(nb_elem: int, my_values: List[float],
